@@ -353,14 +353,16 @@ def main():
         by_job = {}
         inc, exc = P.get("assert_include"), P.get("assert_exclude")
         for h in harness_res:
-            seen = set()
+            seen = {}
             for v in h["violations"] or []:
                 if (inc and not re.search(inc, v["assert"])) or (exc and re.search(exc, v["assert"])):
                     continue
                 key = (h["harness"], v["assert"])
-                if key in seen:
+                # up to 4 models per violated assertion: one that reproduces natively is enough
+                # (a schedule-dependent model may need a window the native run does not meet)
+                if seen.get(key, 0) >= 4:
                     continue
-                seen.add(key)
+                seen[key] = seen.get(key, 0) + 1
                 tag = f"{h['harness']}|{v['assert']}|{len(by_job.get(h['_job'], []))}"
                 by_job.setdefault(h["_job"], []).append({"harness": h["harness"], "tag": tag, "model": v["model"], "_v": v})
         replay_dir = os.path.join(VERIF, "replays", prop)
@@ -384,6 +386,15 @@ def main():
                     confirmed.append(rec)
                 else:
                     mismatches.append(rec)
+        # one reproducing model per (harness, assertion) is enough: drop its other models
+        ckeys = {(r["harness"], r["assert"]) for r in confirmed}
+        mismatches = [m for m in mismatches if (m["harness"], m["assert"]) not in ckeys]
+        uniq, seen_c = [], set()
+        for r in confirmed:
+            if (r["harness"], r["assert"]) not in seen_c:
+                seen_c.add((r["harness"], r["assert"]))
+                uniq.append(r)
+        confirmed = uniq
         # --- native fallback: inputs that reach constructs the executor cannot
         # interpret are run against the real code (sampling; the harness stays
         # incomplete, but an assertion that fails natively is a confirmed violation)
